@@ -48,6 +48,8 @@ class Broker:
         self.keyed = False            # True: messages at even offsets carry a key, the others none
         self.fail_committed = 0       # the next n calls of committed() raise (transient broker error)
         self.fail_watermark = ()      # partitions whose watermark query always fails
+        self.flaky = False            # True: every other poll() of a fetching consumer comes back empty although data is there
+        self.low = {}                 # partition -> low watermark (earlier messages have expired)
 
     def produce(self, part, val):
         self.parts[part].append(val)
@@ -72,6 +74,10 @@ class Consumer:
         if self.assigned is None:
             return None
         p = BROKER.parts[self.assigned.partition]
+        if BROKER.flaky:
+            self._turn = not getattr(self, "_turn", False)
+            if self._turn:
+                return None           # nothing *right now* (the real client returns None whenever its fetch buffer is empty)
         if self.pos < len(p):
             m = Message(self.pos, p[self.pos], key=(b"k" if (BROKER.keyed and self.pos % 2 == 0) else None))
             self.pos += 1
@@ -80,7 +86,7 @@ class Consumer:
 
     def assign(self, tps):
         self.assigned = tps[0]
-        self.pos = max(tps[0].offset, 0)
+        self.pos = max(tps[0].offset, 0, BROKER.low.get(tps[0].partition, 0))      # expired offsets are skipped
 
     def subscribe(self, topics):
         pass
@@ -91,7 +97,7 @@ class Consumer:
         if tp.partition in BROKER.fail_watermark and self.assigned is None and getattr(self, "_probed", False):
             raise KafkaException("watermark query failed for %r" % (tp,))
         self._probed = True        # (the very first query is start()'s own connectivity probe)
-        return (0, len(BROKER.parts[tp.partition]))
+        return (BROKER.low.get(tp.partition, 0), len(BROKER.parts[tp.partition]))
 
     def committed(self, tps, timeout=None):
         if BROKER.fail_committed > 0:
